@@ -464,19 +464,69 @@ func checkShutdown(c *Ctx) {
 			c.Check("C20/shutdown/complete", rule, ex.Pos, all, "a first Shutdown returns without all teardown steps")
 		}
 	}
-	// deschedule is idempotent: closes the stop channel only with tickers present, then clears them
+	// deschedule is idempotent: closes the stop channel only while the scheduler is marked as
+	// running, and removes the mark; schedule sets that mark whenever it started a goroutine
 	ds := c.MustFunc("Memberlist.deschedule")
 	xd := c.flow(ds, map[string]string{})
-	ruleD := "deschedule: closes the stop channel only when tickers exist and clears them afterwards, under the ticker lock (idempotent)"
+	ruleD := "deschedule: closes the stop channel under the ticker lock, only on a path that found the scheduler marked as running (tickers present, or a stop channel recorded), and removes that mark afterwards (idempotent)"
+	mode := ""
 	c.flowMay(xd, "C20/deschedule", ruleD, func(e *gea.Effect) bool { return e.Class == "CLOSE" }, func(e *gea.Effect) (bool, string) {
-		v, ok := atomU(e.Cube, "len(m.tickers)>=1")
-		return ok && v == "T" && e.Seen["LOCK:Lock:m.tickerLock"] == 1 && e.Seen["LOCK:Unlock:m.tickerLock"] == 0 && e.Detail["chan"] == "m.stopTick", "close of " + e.Detail["chan"] + " not guarded by len(tickers) > 0 under the ticker lock"
+		guarded := false
+		if v, ok := atomU(e.Cube, "len(m.tickers)>=1"); ok && v == "T" {
+			guarded = true
+		}
+		if v, ok := atomU(e.Cube, "m.stopTick==nil"); ok && v == "F" {
+			guarded = true
+		}
+		return guarded && e.Seen["LOCK:Lock:m.tickerLock"] == 1 && e.Seen["LOCK:Unlock:m.tickerLock"] == 0 && e.Detail["chan"] == "m.stopTick", "close of " + e.Detail["chan"] + " not guarded by the running mark under the ticker lock"
 	})
 	for _, ex := range xd.Exits {
 		if ex.Seen["CLOSE"] > 0 {
-			c.Check("C20/deschedule/clears", ruleD, ex.Pos, ex.Seen["W:Memberlist.tickers"] == 1, "tickers not cleared after closing the stop channel (a second call would close it again)")
+			cleared := false
+			if v, ok := atomU(ex.Cube, "len(m.tickers)>=1"); ok && v == "T" && ex.Seen["W:Memberlist.tickers"] >= 1 {
+				cleared = true
+			}
+			if v, ok := atomU(ex.Cube, "m.stopTick==nil"); ok && v == "F" && ex.Seen["W:Memberlist.stopTick"] >= 1 {
+				cleared = true
+			}
+			c.Check("C20/deschedule/clears", ruleD, ex.Pos, cleared, "the mark that guards the close is not removed after closing the stop channel (a second call would close it again)")
+			continue
+		}
+		// the path that does nothing: which mark says "not running"?
+		if v, ok := atomU(ex.Cube, "m.stopTick==nil"); ok && v == "T" {
+			mode = "stop"
+		} else if v, ok := atomU(ex.Cube, "len(m.tickers)>=1"); ok && v == "F" && mode == "" {
+			mode = "tickers"
 		}
 	}
+	ruleS := "every goroutine the scheduler starts can be stopped: on every path of schedule that started one, the stop channel it listens on is recorded and the mark deschedule tests before closing it is set (a push/pull trigger has no ticker of its own)"
+	c.Rule(ruleS)
+	sc := c.MustFunc("Memberlist.schedule")
+	xs := c.flow(sc, map[string]string{})
+	ng := 0
+	for _, ex := range xs.Exits {
+		if ex.Seen["GO"] == 0 {
+			continue
+		}
+		infeasible := false
+		for k, v := range ex.Cube {
+			if u := untok(k); strings.HasPrefix(u, "len(append(") && strings.HasSuffix(u, ">=1") && v == "F" {
+				infeasible = true // the result of an append with an element is never empty
+			}
+		}
+		if infeasible {
+			continue
+		}
+		ng++
+		ok := ex.Seen["W:Memberlist.stopTick"] >= 1
+		why := "the stop channel is not recorded"
+		if ok && mode != "stop" && ex.Seen["W:Memberlist.tickers"] == 0 {
+			ok = false
+			why = "no ticker is registered, and deschedule closes the stop channel only when tickers exist"
+		}
+		c.Check("C20/schedule/stoppable", ruleS, ex.Pos, ok, "schedule started a goroutine on the path {"+untok(gea.CubeString(ex.Cube))+"} but "+why+": it keeps running (and exchanging state) after Shutdown")
+	}
+	c.Floor("paths of schedule that start a goroutine", ng, 3)
 }
 
 // checkGoroutineExits: every unconditional loop run by a goroutine of the
